@@ -366,6 +366,22 @@ class HistoryRunner:
                                          "hollow_lazy": bool(hollow(W, target_obj)),
                                          "pattern": ("member-unlock:parent-locked-by-memmap_" if via_mm and outcome == "ok" else
                                                      "member-unlock:hollow-lazy-stack" if hollow(W, target_obj) and outcome == "ok" else None)}))
+            # O5 shared_node / gc_parent: a node of the subtree with a live lock_-locked parent OUTSIDE the subtree forbids the unlock
+            sub = W.reachable(target_obj)
+            outside = [(m, b) for m, b in before.items() if b["raw"] is True and b["oid"] not in sub and not b["mm"]
+                       and any(cid in sub and not hollow(W, sub[cid]) for cid in b["children"])]
+            if outside and not locked_parents:
+                self.flags["shared"] += 1
+                if outcome == "ok":
+                    self.oracle.append(("shared_node:unlocked", {"root": desc.get("n"), "outside_parents": [m for m, _ in outside]},
+                                        {"call": "unlock_", "effect": "unlocked-shared", "stream": "history", "pattern": None}))
+            if outcome == "ok":
+                try:
+                    dead_parents = any(r() is None for x in sub.values() for r in x._lock_parents_weakrefs)
+                except Exception:  # noqa: BLE001
+                    dead_parents = False
+                if dead_parents:
+                    self.flags["gc_unlock"] += 1
             if outcome == "ok":
                 # O3 unlock_root_frees
                 for x in W.reachable(target_obj).values():
@@ -509,14 +525,14 @@ class HistoryRunner:
         self.count("outcome:" + outcome)
         if self.unsupported:
             return False
+        if op != "drop":
+            self.oracle_after(desc, before, outcome, target)       # the oracle never looks at the model: evaluated first
         if not self.model_step(opsx, outcome, new_obj):
             return False
         if new_obj is not None:
             m = W.mid_of(new_obj)
             if m is not None:
                 W.handles[m] = new_obj
-        if op != "drop":
-            self.oracle_after(desc, before, outcome, target)
         return True
 
     def check_written(self, desc, node, k, val):
@@ -671,6 +687,24 @@ class HistoryRunner:
             return {"op": "drop", "n": self.pick(hs)}
         return None
 
+    def preamble(self):
+        """a starting structure (built with the same public calls, so the model follows): chains, a node under two parents,
+        lazy stacks of nested members -- then the random part takes over"""
+        r = self.rng.random()
+        T = lambda: {"op": "newtd"}                                             # noqa: E731
+        S = lambda n, k, v, **kw: dict({"op": "set", "n": n, "k": k, "v": v}, **kw)   # noqa: E731
+        if r < 0.25:
+            return []
+        if r < 0.45:      # chain 0 -> 1 -> 2 with leaves
+            return [T(), T(), T(), S(0, "a", "leaf"), S(0, "b", 1), S(1, "c", 2), S(1, "a", "leaf"), S(2, "d", "leaf")]
+        if r < 0.65:      # node 2 under two roots 0 and 1, with a nested child 3
+            return [T(), T(), T(), T(), S(0, "a", 2), S(1, "b", 2), S(2, "c", 3), S(3, "d", "leaf"), S(0, "d", "leaf")]
+        if r < 0.85:      # lazy stack 4 = [1, 2] (members nested) under root 0
+            return [T(), T(), T(), T(), S(1, "a", "leaf"), S(2, "a", "leaf"), S(1, "b", 3), {"op": "newlazy", "ms": [1, 2]}, S(0, "c", 4)]
+        # lazy stack of lazy stacks, members shared with a plain root
+        return [T(), T(), T(), {"op": "newlazy", "ms": [0, 1]}, {"op": "newlazy", "ms": [2]}, T(), S(5, "a", 0),
+                {"op": "newlazy", "ms": [3, 3]}]
+
     def run_with_block(self, body_len):
         """`with h.unlock_(): body` / `with h.lock_(): body` executed as a real with-statement; the model sees the op sequence"""
         W, rng = self.W, self.rng
@@ -692,9 +726,9 @@ class HistoryRunner:
             cm = None
         d = {"op": which, "n": n, "outcome": out, "with": "enter", "escape": escape}
         self.trace.append(d)
+        self.oracle_after(d, before, out, h)
         if not self.model_step(sx([Sym(which), n]), out):
             return False
-        self.oracle_after(d, before, out, h)
         if cm is None:
             return True
         post = bool(h.is_locked)
@@ -720,10 +754,10 @@ class HistoryRunner:
             out = exit_exc or "ok"
             d = {"op": inv, "n": n, "outcome": out, "with": "exit"}
             self.trace.append(d)
-            if not self.model_step(sx([Sym(inv), n]), out):
-                return False
             if before_exit is not None:
                 self.oracle_after(d, before_exit, out, h)
+            if not self.model_step(sx([Sym(inv), n]), out):
+                return False
         return True
 
 
@@ -735,8 +769,11 @@ def run_history(t, sess, seed, nops, quick, forced=None):
                 if not H.step(forced={k: v for k, v in d.items() if k not in ("outcome", "with", "escape", "died")}):
                     break
         else:
+            for d in H.preamble():
+                if not H.step(forced=d):
+                    break
             i = 0
-            while i < nops:
+            while i < nops and not H.mismatch and not H.unsupported:
                 if H.rng.random() < 0.06 and H.W.handles:
                     ok = H.run_with_block(1 + int(H.rng.random() * 3))
                     i += 3
